@@ -89,6 +89,9 @@ def merge_states(cx, parent, states, base_len, base_pc, live=None):
         if v is not None:
             regs[k] = v
         elif live is None or k in live:
+            import os, sys
+            if os.environ.get('VCGEN_TRACE_PATHS'):
+                print('MERGE-FAIL reg', k, [repr(s.regs[k])[:120] for s in states], file=sys.stderr)
             return None   # a register that may still be read cannot be merged: keep the arms apart
     m.regs = regs
     # names: keep agreeing entries
@@ -98,6 +101,10 @@ def merge_states(cx, parent, states, base_len, base_pc, live=None):
             if s.names.get(n) != names[n]:
                 del names[n]
     m.names = names
+    seen = set()
+    for s in states:
+        seen |= getattr(s, 'names_seen', set())
+    m.names_seen = seen
     # heap
     allkeys = set()
     for s in states:
